@@ -18,10 +18,10 @@ FUNC = {"new", "ins", "del", "get", "size", "iter", "clone", "mkroot", "load", "
 
 PROPS = {
     "C01": dict(profiles=[("map", 150, 1500)], tags=FUNC, checks=[], corr={}),
-    "C02": dict(profiles=[("versions", 80, 800)], tags=FUNC | {"cursor"}, checks=[], corr={}),
+    "C02": dict(profiles=[("versions", 80, 800), ("dual", 15, 150)], tags=FUNC | {"cursor"}, checks=[], corr={}),
     "C03": dict(profiles=[], tags={"durable"}, checks=[], corr={}, special="sched"),
     "C04": dict(profiles=[("canon", 120, 1200)], tags={"canon", "canon-height"}, checks=["canon"], corr={"only": {"mkroot", "height"}}),
-    "C05": dict(profiles=[("persist", 100, 1000), ("map", 40, 400)], tags=FUNC | {"height"}, checks=[], corr={}),
+    "C05": dict(profiles=[("persist", 100, 1000), ("map", 40, 400), ("dual", 25, 250)], tags=FUNC | {"height"}, checks=[], corr={}),
     "C06": dict(profiles=[("diff", 200, 2000)], tags={"diff"}, checks=[], corr={"only": {"diff", "diffstop", "difffail", "diffcur"}}),
     "C07": dict(profiles=[("diff", 200, 2000)], tags={"difflinks", "linkdiff"}, checks=["linkdiff"], corr={"only": {"difflinks"}, "links_as_sets": True},
                 profile_args={"diff": {"persisted": True}}),
